@@ -1,5 +1,5 @@
 (* allow-axioms:  *)
-From RRE Require Import Base.Sx Model.Tms Proofs.TmsProofs.
+From RRE Require Import Base.Sx Model.Tms Proofs.TmsProofs Proofs.TmsSupportProofs.
 Open Scope N_scope.
 From RRE Require Import Properties.C08.
 Check (C08_cascade_never_takes_explicit : forall fuel js x t t' l o,
@@ -11,3 +11,15 @@ Check (C08_explicit_only_explicit : forall e x h,
 Check (C08_only_retract_removes : forall e o h,
   (forall x, o <> Retract x) -> live (wm e) h = true ->
   live (wm (fst (fst (step e o)))) h = true).
+Check (C08_present_iff_supported : forall ops, wf_run init ops ->
+  (forall h, In h (map fst (wm (exec init ops))) -> ~ In h (targets [] init ops) ->
+     (live (wm (exec init ops)) h = true <-> supported (exec init ops) h))
+  /\ (forall h, In h (targets [] init ops) -> live (wm (exec init ops)) h = false)).
+Check (C08_retraction_removes_exactly : forall ops x, wf_run init ops ->
+  live (wm (exec init ops)) x = true ->
+  forall h, live (wm (exec init ops)) h = true ->
+    (live (wm (next (exec init ops) (Retract x))) h = false <-> h = x \/ ~ supported (next (exec init ops) (Retract x)) h)).
+Check (C08_explicit_present_unless_retracted : forall ops h, wf_run init ops ->
+  has_explicit (justs (exec init ops)) h = true -> In h (map fst (wm (exec init ops))) ->
+  ~ In h (targets [] init ops) -> live (wm (exec init ops)) h = true).
+Check (C08_cascade_terminates : forall e x, snd (step e (Retract x)) = false).
